@@ -12,6 +12,14 @@ Init == stage = 0 /\ f = EmptyOH /\ g = EmptyOH
 ChooseF == stage = 0 /\ f' \in D /\ g' = g /\ stage' = 1
 ChooseG == /\ stage = 1 /\ g' \in D /\ f' = f /\ stage' = 2
            /\ EmitCase("strict.compose", <<"C01", "C05">>, [f |-> Pack(f), g |-> Pack(g')])
+           /\ (f = g' => /\ EmitCase("strict.compose_shr", <<"C01", "C05">>, [f |-> Pack(f), g |-> Pack(g')])
+                         /\ EmitCase("strict.source", <<"C05">>, [f |-> Pack(f)]) /\ EmitCase("strict.target", <<"C05">>, [f |-> Pack(f)]))
+           \* the middle step of composition on its own: quotient the juxtaposition by the canonical coequalizer,
+           \* and by the everything-to-one map (refused unless all labels agree)
+           /\ (Composable(f, g') /\ NN(f) + NN(g') > 0 =>
+                 LET h == TensorRef(f, g')  q == QuotMap(NN(h), GluePairs(f, g')) IN
+                 /\ EmitCase("hyper.coequalize_vertices", <<"C01", "C05">>, [h |-> PackH(h), q |-> FF(q, NumClasses(q))])
+                 /\ EmitCase("hyper.coequalize_vertices", <<"C01", "C05">>, [h |-> PackH(h), q |-> FF([i \in 1 .. NN(h) |-> 0], 1)]))
 Next == ChooseF \/ ChooseG
 Spec == Init /\ [][Next]_vars
 
